@@ -235,3 +235,14 @@ Theorem C08_bond_spelling_rejected :
   tokenize_raw "C-;" = Err IncorrectSmarts /\ tokenize_raw "C-;!" = Err IncorrectSmarts.
 Proof. exact bond_spelling_rejected. Qed.
 Print Assumptions C08_bond_spelling_rejected.
+
+(* ---------------------------------------------------------------------------------------------------------------- *)
+(* query_roundtrip, PARTIAL: parse (spell p) = p is shown for a finite family of 7200 canonical records only (all
+   combinations of 2 isotopes, 5 element spellings, 3 stereo marks, 5 charges, 12 primitive configurations, masked, mapped);
+   the statement for ALL records of the documented subset is not proved (search: harness/checks/C08.py reads generated
+   canonical bodies with an independent regular expression) *)
+Theorem C08_query_roundtrip_partial :
+  Z.of_nat (List.length rt_family) = 7200 /\
+  forallb (fun p => pyres_eqb parsed_eqb (query_parse (spell_query p)) (Ok p)) rt_family = true.
+Proof. exact query_roundtrip_partial. Qed.
+Print Assumptions C08_query_roundtrip_partial.
